@@ -58,6 +58,16 @@ def cases(tier, seed):
               geom.wire([0.15, -0.1, z0 + 0.05], [0.15, -0.1, z0 + 0.37], 8, 0.004)]
         for f0, rf in ((5.0, 6.0), (30.0, 1. / 6)):
             yield dict(env=env, f=f0, lam=geom.C_MININEC / f0, wires=ws, name='thick-%s-f%g' % (env, f0), refreq=rf)
+    # a thick tube (radius 0.01 wavelength, segments of 5 radii) next to and joined to thin wires (5e-5 wavelength): thin and
+    # thick sources in one model, where the radius term of the kernel is large
+    rot, sc, f_ = geom.variant(seed)
+    lam_ = geom.C_MININEC / f_
+    for env, z0 in (('free', 0.2), ('ideal', 0.0)):
+        tube = geom.wire([0., 0., z0 * lam_], [0.02 * lam_, 0.01 * lam_, (z0 + 0.5) * lam_], 10, 0.01 * lam_)
+        thin1 = geom.wire([0.3 * lam_, -0.1 * lam_, (z0 + 0.05) * lam_], [0.32 * lam_, 0.2 * lam_, (z0 + 0.3) * lam_], 8, 5e-5 * lam_)
+        thin2 = geom.wire([0.02 * lam_, 0.01 * lam_, (z0 + 0.5) * lam_], [0.25 * lam_, 0.1 * lam_, (z0 + 0.62) * lam_], 6, 5e-5 * lam_)
+        for nm, ws in (('beside', [tube, thin1]), ('joined', [tube, thin2]), ('joined-thin-first', [thin2, tube]), ('all', [thin1, tube, thin2])):
+            yield dict(env=env, f=f_, lam=lam_, wires=ws, name='tube-%s-%s' % (nm, env))
     for c in c03._lean(tier, seed):
         yield dict(env='ideal', f=c['f'], lam=c['lam'], pts=c['pts'], st=c['st'], name=c['name'])
     for c in c06.extras(tier, seed, thick=True):
